@@ -36,7 +36,7 @@ fn count_vectors(max_len: u32) -> u64 {
     (0..=max_len).map(|l| ALPHABET.pow(l)).sum()
 }
 
-fn check_pair<T: Ord + Clone + std::fmt::Debug>(a: &[T], b: &[T], queries: &[T]) -> Result<bool, String> {
+fn check_pair<T: Ord + Clone + std::fmt::Debug>(a: &[T], b: &[T], queries: &[T], deep: bool) -> Result<bool, String> {
     let sa: BTreeSet<T> = a.iter().cloned().collect();
     let sb: BTreeSet<T> = b.iter().cloned().collect();
     let ua: UniqueSortedVec<T> = a.to_vec().into();
@@ -63,6 +63,57 @@ fn check_pair<T: Ord + Clone + std::fmt::Debug>(a: &[T], b: &[T], queries: &[T])
     if u3.as_slice() != exp_u.as_slice() {
         return Err(format!("(a∪b)∪a for a={a:?} b={b:?} = {:?}", u3.as_slice()));
     }
+    // chains: the result (which may own spare capacity, unlike a freshly built value) united with
+    // a third operand lying entirely below it, entirely above it, or interleaved, on either side;
+    // `queries` doubles as the pool the third operand is taken from
+    if let (Some(lo), Some(hi)) = (exp_u.first(), exp_u.last()) {
+        let below: Vec<T> = queries.iter().filter(|q| *q < lo).cloned().collect();
+        let above: Vec<T> = queries.iter().filter(|q| *q > hi).cloned().collect();
+        let mixed: Vec<T> = queries.iter().step_by(3).cloned().collect();
+        for (name, c) in [("below", below), ("above", above), ("interleaved", mixed)] {
+            for take in [1usize, 2, c.len()] {
+                let c: Vec<T> = c.iter().take(take).cloned().collect();
+                if c.is_empty() {
+                    continue;
+                }
+                let uc: UniqueSortedVec<T> = c.clone().into();
+                let exp: Vec<T> = exp_u.iter().cloned().chain(c.iter().cloned()).collect::<BTreeSet<T>>().into_iter().collect();
+                // (a∪b)∪c, c∪(a∪b) and the same with the first union taken the other way round
+                // (a clone would not do: cloning a vector drops its spare capacity)
+                for (desc, got) in [
+                    ("(a∪b)∪c", ua.clone().union(ub.clone()).union(uc.clone())),
+                    ("c∪(a∪b)", uc.clone().union(ua.clone().union(ub.clone()))),
+                    ("(b∪a)∪c", ub.clone().union(ua.clone()).union(uc.clone())),
+                    ("c∪(b∪a)", uc.clone().union(ub.clone().union(ua.clone()))),
+                ] {
+                    if got.as_slice() != exp.as_slice() {
+                        return Err(format!("{desc} with a={a:?} b={b:?} c={c:?} ({name}) = {:?}, expected {exp:?}", got.as_slice()));
+                    }
+                    if !deep {
+                        continue;
+                    }
+                    // and once more: a result of a result
+                    let again = got.union(uc.clone());
+                    if again.as_slice() != exp.as_slice() {
+                        return Err(format!("({desc})∪c with a={a:?} b={b:?} c={c:?} ({name}) = {:?}, expected {exp:?}", again.as_slice()));
+                    }
+                }
+            }
+        }
+    }
+    // operands built from vectors with spare capacity
+    for extra in [1usize, a.len() + b.len() + 3].into_iter().take(if deep { 2 } else { 1 }) {
+        let mut va: Vec<T> = Vec::with_capacity(a.len() + extra);
+        va.extend(a.iter().cloned());
+        let mut vb: Vec<T> = Vec::with_capacity(b.len() + extra);
+        vb.extend(b.iter().cloned());
+        let (ra, rb): (UniqueSortedVec<T>, UniqueSortedVec<T>) = (va.into(), vb.into());
+        for (desc, got) in [("a.union(b)", ra.clone().union(rb.clone())), ("b.union(a)", rb.union(ra.clone())), ("a.union(fresh b)", ra.union(ub.clone()))] {
+            if got.as_slice() != exp_u.as_slice() {
+                return Err(format!("{desc} with operands built from vectors with spare capacity {extra}: a={a:?} b={b:?} = {:?}, expected {exp_u:?}", got.as_slice()));
+            }
+        }
+    }
     for q in queries {
         if ua.contains(q) != sa.contains(q) {
             return Err(format!("{:?}.contains({q:?}) = {}", ua.as_slice(), ua.contains(q)));
@@ -88,12 +139,12 @@ fn check_pair<T: Ord + Clone + std::fmt::Debug>(a: &[T], b: &[T], queries: &[T])
 fn exhaustive(_tier: Tier) -> SubOutcome {
     let max_len = 6;
     let n = count_vectors(max_len);
-    let rule: &'static str = "exhaustive: all ordered pairs of vectors of length <= 6 over a 4-symbol alphabet (5461^2 pairs); From<Vec>, union both ways, re-union, contains and find_first_following for every query 0..=8 vs BTreeSet; non-trivial = operands' ranges interleave";
+    let rule: &'static str = "exhaustive: all ordered pairs of vectors of length <= 6 over a 4-symbol alphabet (5461^2 pairs); From<Vec>, union both ways, re-union, chains (a∪b)∪c / c∪(a∪b) with third operands below, above and interleaved (a result of a union may own spare capacity, a fresh value does not), operands built from vectors with spare capacity, contains and find_first_following for every query 0..=8 vs BTreeSet; non-trivial = operands' ranges interleave";
     let queries: Vec<u8> = (0..=8).collect();
     par_enumerate("pairs_exhaustive", rule, n * n, move |i, acc: &mut Acc| {
         let a = nth_vector(i / n, max_len);
         let b = nth_vector(i % n, max_len);
-        match check_pair(&a, &b, &queries) {
+        match check_pair(&a, &b, &queries, false) {
             Ok(nt) => {
                 acc.case(nt);
                 if nt && i % 200_003 == 0 {
@@ -120,7 +171,7 @@ fn pairs_text(text: &str, case: &mut Case) -> Result<(), String> {
     case.key = text.to_string();
     let (a, b) = text.split_once('|').unwrap_or((text, ""));
     let queries: Vec<u8> = (0..=255).collect();
-    check_pair(&parse_vec(a), &parse_vec(b), &queries).map(|_| ())
+    check_pair(&parse_vec(a), &parse_vec(b), &queries, true).map(|_| ())
 }
 
 fn gen_vec(ch: &mut Choices, max_len: u32, max_val: u32) -> Vec<u8> {
@@ -136,7 +187,7 @@ fn random_u8(ch: &mut Choices, case: &mut Case) -> Result<(), String> {
     let queries: Vec<u8> = (0..=max_val.min(254) as u8 + 1).collect();
     case.key = format!("a={a:?} b={b:?}");
     case.units = queries.len() as u64;
-    let nt = check_pair(&a, &b, &queries)?;
+    let nt = check_pair(&a, &b, &queries, true)?;
     case.nontrivial = nt && a.len() + b.len() > 12;
     if a.len() > 100 || b.len() > 100 {
         case.label("long");
@@ -155,7 +206,7 @@ fn random_str(ch: &mut Choices, case: &mut Case) -> Result<(), String> {
     let b = mk(ch);
     let queries: Vec<Arc<str>> = WORDS.iter().map(|w| Arc::from(*w)).collect();
     case.key = format!("a={a:?} b={b:?}");
-    case.nontrivial = check_pair(&a, &b, &queries)?;
+    case.nontrivial = check_pair(&a, &b, &queries, true)?;
     let ua: UniqueSortedVec<Arc<str>> = a.clone().into();
     let r: UniqueSortedVec<&str> = ua.to_ref();
     let exp: BTreeSet<&str> = a.iter().map(|x| &**x).collect();
@@ -261,6 +312,21 @@ fn large_check(a: &[u32], b: &[u32], la: usize, lb: usize, universe: u32, relati
     if u3.as_slice() != exp_u.as_slice() {
         return Err(format!("(a∪b)∪b: {}", first_diff(u3.as_slice(), &exp_u)));
     }
+    // chains: a small third operand entirely below / above the (possibly over-allocated) result
+    for c in [vec![0u32], vec![4 * universe + 9, 4 * universe + 7], vec![0, 4 * universe + 9]] {
+        let uc: UniqueSortedVec<u32> = c.clone().into();
+        let exp: Vec<u32> = exp_u.iter().copied().chain(c.iter().copied()).collect::<BTreeSet<u32>>().into_iter().collect();
+        // (a clone would not do: cloning a vector drops its spare capacity)
+        for (desc, got) in [
+            ("(a∪b)∪c", ua.clone().union(ub.clone()).union(uc.clone())),
+            ("c∪(a∪b)", uc.clone().union(ua.clone().union(ub.clone()))),
+            ("c∪(b∪a)", uc.clone().union(ub.clone().union(ua.clone()))),
+        ] {
+            if got.as_slice() != exp.as_slice() {
+                return Err(format!("{desc} with c={c:?}: {}", first_diff(got.as_slice(), &exp)));
+            }
+        }
+    }
     // queries: around sampled members, the ends and beyond
     let mut queries: Vec<u32> = vec![0, 1, 2, 2 * universe + 1, 2 * universe + 2, u32::MAX];
     for _ in 0..24 {
@@ -309,7 +375,7 @@ pub fn property() -> Property {
         subs: vec![
             SubCheck {
                 name: "random_large",
-                rule: "generated pairs of vectors of up to 3000 elements each (lengths bracketed around powers of two) over universes of 64 to 10^6 values, the second operand independent, sharing the greatest/least element, contained, containing or disjoint; From<Vec>, union both ways, re-union vs BTreeSet and ~80 queries around members and ends; non-trivial = interleaving operands with more than 64 distinct elements in total",
+                rule: "generated pairs of vectors of up to 3000 elements each (lengths bracketed around powers of two) over universes of 64 to 10^6 values, the second operand independent, sharing the greatest/least element, contained, containing or disjoint; From<Vec>, union both ways, re-union, chains with a small third operand below / above the result vs BTreeSet and ~80 queries around members and ends; non-trivial = interleaving operands with more than 64 distinct elements in total",
                 f: random_large,
                 text_f: None,
                 cases_quick: 6_000,
